@@ -273,10 +273,32 @@ func (env *c19Env) apply(o c19Op) string {
 		bad := 0
 		var mu sync.Mutex
 		var wg sync.WaitGroup
+		// per-goroutine KMAC128 hashers of DIFFERENT output sizes (32, 48, 64, 200 bytes) run next to the shared
+		// 128-byte ones: their digests, and ECDSA verification through them, are what they are alone
+		ownSizes := []int{32, 48, 64, 200}
+		ownKey := []byte("0123456789abcdef0123456789abcdef")
+		ownMsg := []byte("per-goroutine hasher")
+		var ownWant [][]byte
+		var ownSig []crypto.Signature
+		for _, sz := range ownSizes {
+			hk, _ := hash.NewKMAC_128(ownKey, []byte("c19-own"), sz)
+			ownWant = append(ownWant, hk.ComputeHash(ownMsg))
+			sg, _ := env.ecsk[0].Sign(ownMsg, hk)
+			ownSig = append(ownSig, sg)
+		}
 		for g := 0; g < G; g++ {
 			wg.Add(1)
 			go func(g int) {
 				defer wg.Done()
+				own, _ := hash.NewKMAC_128(ownKey, []byte("c19-own"), ownSizes[g%4])
+				for r := 0; r < 40; r++ {
+					okE, errE := env.ecpk[0].Verify(ownSig[g%4], ownMsg, own)
+					if !bytes.Equal(own.ComputeHash(ownMsg), ownWant[g%4]) || !okE || errE != nil {
+						mu.Lock()
+						bad++
+						mu.Unlock()
+					}
+				}
 				for _, l := range []int{1, 8, 20, 32, 44} {
 					m := make([]byte, l)
 					for i := range m {
@@ -286,7 +308,7 @@ func (env *c19Env) apply(o c19Op) string {
 					want := fresh.ComputeHash(m)
 					wantSig, _ := env.sks[0].Sign(m, crypto.NewExpandMsgXOFKMAC128("c19-stress"))
 					for r := 0; r < R; r++ {
-						if !bytes.Equal(env.stressKmac.ComputeHash(m), want) {
+						if !bytes.Equal(env.stressKmac.ComputeHash(m), want) || (r%5 == 0 && !bytes.Equal(own.ComputeHash(ownMsg), ownWant[g%4])) {
 							mu.Lock()
 							bad++
 							mu.Unlock()
